@@ -35,16 +35,18 @@ META = {
              'one of two depth coordinates; oracle = id of the physically deepest non-NaN layer per column/time read from the '
              'abstract model; distinct = (convention, axis orientations, variable dimension orders, floor styles, route); '
              'non-trivial = >= 2 levels and >= 2 columns'),
-    'min': {'evaluations': 300, 'distinct': 100,
-            'classes': {'route:ems': 40, 'route:direct': 80, 'route:direct-no-time': 10, 'route:time-as-spatial': 5,
-                        'route:partial-coords': 5, 'axes:2': 30,
-                        'orient:down/shallow-first': 15, 'orient:down/deep-first': 15,
-                        'orient:up/shallow-first': 15, 'orient:up/deep-first': 15,
-                        'column:all-dry': 100, 'column:all-wet': 100, 'column:partial': 300,
-                        'depth-dim-first': 40, 'depth-dim-last': 40, 'depth-dim-inner': 40,
-                        'variable-without-depth-unchanged': 100, 'variable-on-non-default-kind': 40,
-                        'conv:cf1d': 10, 'conv:shoc_simple': 10, 'conv:shoc_standard': 10, 'conv:ugrid': 10},
-            'contracts': {'_find_ocean_floor_indexes': 200}},
+    'min': {'evaluations': 3000, 'distinct': 2000,
+            'classes': {'route:ems': 300, 'route:direct': 500, 'route:direct-no-time': 100, 'route:time-as-spatial': 60,
+                        'route:partial-coords': 50, 'axes:2': 200,
+                        'orient:down/shallow-first': 250, 'orient:down/deep-first': 250,
+                        'orient:up/shallow-first': 250, 'orient:up/deep-first': 250,
+                        'column:all-dry': 3000, 'column:all-wet': 3000, 'column:partial': 5000,
+                        'depth-dim-first': 700, 'depth-dim-last': 700, 'depth-dim-inner': 700,
+                        'variable-without-depth-unchanged': 1500, 'variable-on-non-default-kind': 800,
+                        'attr:absent': 100, 'attr:other-case': 300, 'group-with-gaps-above-floor': 100,
+                        'coordinate-as-plain-variable': 150,
+                        'conv:cf1d': 100, 'conv:shoc_simple': 100, 'conv:shoc_standard': 100, 'conv:ugrid': 100, 'conv:cf2d': 100},
+            'contracts': {'_find_ocean_floor_indexes': 2000}},
     'must_reach': ['emsarray.operations.depth:ocean_floor', 'emsarray.operations.depth:_find_ocean_floor_indexes',
                    'emsarray.operations.depth:normalize_depth_variables', 'emsarray.conventions._base:Convention.ocean_floor',
                    'emsarray.conventions.shoc:ShocStandard.depth_coordinates', 'emsarray.conventions.shoc:ShocSimple.depth_coordinates'],
@@ -126,7 +128,7 @@ def one_dataset(obs, rng, conv, spec):
         chosen = [axes[i] for i in which]
         if route == 'ems':
             obs.cls('route:ems')
-            with quiet_warnings() as log:
+            with quiet_warnings():
                 out = obs.call('dataset.ems.ocean_floor', ems.ocean_floor, mech=lambda exc: exc_mech(axes, exc))
         else:
             coords = [a['name'] if chance(rng, 0.6) else ds[a['name']] for a in chosen]
@@ -149,7 +151,7 @@ def one_dataset(obs, rng, conv, spec):
             if len(which) < len(axes):
                 obs.cls('route:partial-coords')
             from emsarray.operations import depth
-            with quiet_warnings() as log:
+            with quiet_warnings():
                 out = obs.call('operations.depth.ocean_floor', depth.ocean_floor, ds, coords,
                                mech=lambda exc: exc_mech(axes, exc), **kw)
         if isinstance(out, Failed):
@@ -164,7 +166,7 @@ def exc_mech(axes, exc=None):
             and any(a['bounds_style'] == 'var' for a in axes):
         # the bounds variable of a depth coordinate was reduced together with an earlier group and has lost the depth dimension
         return BOUNDS_MECH
-    return CASE_MECH if any(depthgen.case_variant_down(a['attr']) for a in axes) else None
+    return None        # any other exception stays unclassified (the case-variant mis-reading gives wrong values, not errors)
 
 
 def check_floor(obs, model, ds, snap, before, out, chosen, route, ns, conv):
